@@ -5,7 +5,7 @@ import GqlModel.Vars.Spec
   Driver ops for variable coercion and argument maps.
 
   vars <opIndex> (list <schema> <querydoc> <goval>…)   → one observation per goval, joined by ";":
-        OK <goval (map, keys sorted)> | ERR <hex message> <path>[ ALT <key>…] | PANIC | FUEL
+        OK <goval (map, keys sorted)> | ERR <hex message> <path>[ ALT <key>…] | PANIC <hex message> | FUEL
   argmap (list <argdefs | nodef> <args> <vardefs> <goval>)  → OK <goval> | PANIC <hex message> | DIVERGE
   conforms (list <schema> <gtype> <goval>…)            → one 0/1 per goval, joined by ";"
   coercible (list <schema> <gtype> <goval>…)           → likewise for `Coercible`
@@ -25,7 +25,7 @@ def obsRes : Res GoFields → String
   | .err msg path alts =>
     "ERR " ++ toHexW msg ++ " " ++ (pathSexp path).render ++
       (if alts.isEmpty then "" else " ALT " ++ " ".intercalate (alts.map fun k => (Sexp.bytes k).render))
-  | .panic _ => "PANIC"
+  | .panic msg => "PANIC " ++ toHexW msg
   | .outOfFuel => "FUEL"
 
 def dVarMap : Sexp → Option VarMap
@@ -90,6 +90,40 @@ def opJudge (judge : Schema → GType → GoVal → Bool) (args : List String) :
     | _, _ => "bad-tree"
   | _ => "bad-sexp"
 
+/-- conformsl <6 bits: enumFold typenameKey numericStrings fractionalInt jsonNumberAsString flatNested> (list schema type val…) -/
+def opConformsL : List String → String
+  | bits :: rest =>
+    match bits.toList.map (fun c => c == '1') with
+    | [a, b, c, d, e, f] =>
+      opJudge (conformsWith { enumFold := a, typenameKey := b, numericStrings := c, fractionalInt := d,
+                              jsonNumberAsString := e, flatNested := f }) rest
+    | _ => "bad-bits"
+  | _ => "bad-args"
+
+def bitsLeniency (bits : String) : Option Leniency :=
+  match bits.toList.map (fun c => c == '1') with
+  | [a, b, c, d, e, f] => some { enumFold := a, typenameKey := b, numericStrings := c, fractionalInt := d,
+                                 jsonNumberAsString := e, flatNested := f }
+  | _ => none
+
+/-- judge <bits,bits,…> <bits,bits,…> (list schema type (list result…) (list supplied…)):
+    for every leniency of the first group the verdicts on the results, then for every leniency of
+    the second group the verdicts on the supplied values; groups separated by "|", verdicts are 0/1 characters -/
+def opJudgeMany : List String → String
+  | rb :: sb :: rest =>
+    match Sexp.parse (joinArgs rest) with
+    | some (.list [.tag "list", sch, ty, .list (.tag "list" :: rs), .list (.tag "list" :: ss)]) =>
+      match Wire.dSchema sch, Wire.dType ty, rs.mapM Wire.dGoVal, ss.mapM Wire.dGoVal with
+      | some s, some t, some rs, some ss =>
+        let run (bits : String) (vals : List GoVal) : String :=
+          match bitsLeniency bits with
+          | none => "bad-bits"
+          | some L => String.ofList (vals.map fun v => if conformsWith L s t v then '1' else '0')
+        "|".intercalate (((rb.splitOn ",").map fun b => run b rs) ++ ((sb.splitOn ",").map fun b => run b ss))
+      | _, _, _, _ => "bad-tree"
+    | _ => "bad-sexp"
+  | _ => "bad-args"
+
 def opStrconv : List String → String
   | ["pi", h] => match fromHex h with
     | some b => (match Strconv.parseInt b with
@@ -113,6 +147,6 @@ def opStrconv : List String → String
 
 def varsOps : List (String × (List String → String)) :=
   [("vars", opVars), ("argmap", opArgMap), ("argspec", opArgSpec),
-   ("conforms", opJudge conformsB), ("coercible", opJudge coercibleB), ("strconv", opStrconv)]
+   ("conforms", opJudge conformsB), ("coercible", opJudge coercibleB), ("conformsl", opConformsL), ("judge", opJudgeMany), ("strconv", opStrconv)]
 
 end Gql.Ops
